@@ -347,6 +347,14 @@ def ctl_steps(rng, sysm):
 
 
 EXTRA_FAMILIES = [
+    # an atom group given as a range (reversed / degenerate ranges are substitution classes of atomNumbersRange)
+    ("range_group", "colvar {\n  name d1\n  width 0.5\n  distance {\n    group1 { atomNumbersRange 13-16 }\n    group2 { atomNumbers 1 2 }\n  }\n}\n"
+                    "harmonic {\n colvars d1\n centers 4.0\n forceConstant 1.0\n}\n", "off"),
+    # a two-dimensional grid one of whose dimensions is already large: a large value in the other dimension makes the
+    # product of the sizes, not each size, impossible to allocate
+    ("hist2d_wide", "colvar {\n  name d1\n  width 0.001\n  lowerBoundary 0.0\n  upperBoundary 100.0\n  distance {\n    group1 { atomNumbers 1 }\n    group2 { atomNumbers 2 }\n  }\n}\n"
+                    "colvar {\n  name d2\n  width 1.0\n  lowerBoundary 0.0\n  upperBoundary 10.0\n  distance {\n    group1 { atomNumbers 3 }\n    group2 { atomNumbers 4 }\n  }\n}\n"
+                    "histogram {\n colvars d1 d2\n}\n", "off"),
     ("alb", ctl.cv_d1() + "alb {\n colvars d1\n centers 4.0\n updateFrequency 4\n forceRange 1.0\n rateMax 0.5\n}\n", "off"),
     ("histrest", "colvar {\n  name hv\n  distancePairs {\n    group1 { atomNumbers 1 3 }\n    group2 { atomNumbers 2 4 }\n  }\n}\n"
                  "histogramRestraint {\n colvars hv\n lowerBoundary 0.0\n upperBoundary 40.0\n width 5.0\n gaussianSigma 2.0\n"
